@@ -194,12 +194,29 @@ def five_fields(ctx, cfg):
     chain_ok = all(fn.dominates(nexts[i][0], nexts[i + 1][0]) for i in range(len(nexts) - 1))
     # the constructor call
     ctors = [(bi, t) for bi, t in fn.calls() if (t["callee"].get("def") or "").endswith("NoiseParams::new")]
-    ok_new = len(ctors) == 1
-    ctx.ob("five-fields", "ctor", ok_new, "the parsed value is built by one NoiseParams::new call" if ok_new else "NoiseParams::new call not found uniquely (%d)" % len(ctors), w, cfg)
+    lits = []
+    if not ctors:
+        # the same value written as a struct literal
+        for bi, b in enumerate(fn.blocks):
+            for st in b["stmts"]:
+                if st["k"] == "assign" and st["rv"]["k"] == "aggregate" and st["rv"].get("agg") == "adt" and (st["rv"].get("adt") or "").endswith("params::NoiseParams"):
+                    lits.append((bi, st))
+    ok_new = len(ctors) == 1 or (not ctors and len(lits) == 1)
+    ctx.ob("five-fields", "ctor", ok_new, "the parsed value is built by one NoiseParams::new call (or one struct literal)" if ok_new else "NoiseParams::new call not found uniquely (%d)" % len(ctors), w, cfg)
     if not ok_new:
         return
-    cb, ct = ctors[0]
-    args = ct["args"]
+    if ctors:
+        cb, ct = ctors[0]
+        args = ct["args"]
+    else:
+        cb, st = lits[0]
+        byname = dict(zip(st["rv"]["field_names"], st["rv"]["ops"]))
+        order = ["name", "base", "handshake", "dh", "cipher", "hash"]
+        if not all(k in byname for k in order):
+            ctx.ob("five-fields", "ctor-fields", False, "NoiseParams literal lacks one of %s" % order, w, cfg)
+            return
+        args = [byname[k] for k in order]
+        ct = st
     a0 = strip_bb(R.op(args[0]))
     ok_name = a0[0] == "call" and (a0[1] or "").endswith(("ToOwned::to_owned", "String::from", "From::from", "Into::into", "ToString::to_string", "str>::to_owned", "str>::to_string")) \
         and len(a0[3]) == 1 and is_s(a0[3][0])
